@@ -31,10 +31,17 @@ class Result:
     def __init__(s, q):
         s.q = q; s.status = None; s.failed = []; s.unwind = []; s.wall = 0.0; s.rss_mb = 0; s.out = ''; s.vars = None; s.clauses = None
         s.rounds = 0; s.unwindset = dict(q.unwindset)
-    def ce(s):
-        """values of ce_* harness variables in the counterexample trace (last assignment wins)"""
+    def ce(s, prop=None):
+        """values of ce_* harness variables in the counterexample trace (last assignment wins); with prop, only the
+        trace printed for the failed property whose description contains prop"""
         vals = {}
-        for m in re.finditer(r'^\s+(ce_\w+)((?:\[\d+l?\])*)=(-?\d+|TRUE|FALSE)', s.out, re.M):
+        text = s.out
+        if prop:
+            names = [n for n, d in s.failed if prop in d]
+            secs = re.split(r'^Trace for ', text, flags=re.M)
+            pick = [x for x in secs[1:] if any(x.startswith(n + ':') for n in names)]
+            if pick: text = pick[0]
+        for m in re.finditer(r'^\s+(ce_\w+)((?:\[\d+l?\])*)=(-?\d+|TRUE|FALSE)', text, re.M):
             name, idx, v = m.group(1), m.group(2), m.group(3)
             v = 1 if v == 'TRUE' else 0 if v == 'FALSE' else int(v)
             if idx:
@@ -43,7 +50,7 @@ class Result:
             else:
                 vals[name] = v
         # whole-array assignments: ce_x={ 1, 2, 3 }
-        for m in re.finditer(r'^\s+(ce_\w+)=\{([^{}]*)\}', s.out, re.M):
+        for m in re.finditer(r'^\s+(ce_\w+)=\{([^{}]*)\}', text, re.M):
             try:
                 arr = [int(re.match(r'\s*(-?\d+)', x).group(1)) for x in m.group(2).split(',') if x.strip()]
                 d = vals.setdefault(m.group(1), {})
